@@ -123,22 +123,58 @@ func checkSequence(s ugen.SeqCase) error {
 		return fmt.Errorf("harness: arena: %v", err)
 	}
 	defer a.Close()
-	before, err := a.SnapshotOutside()
-	if err != nil {
-		return fmt.Errorf("harness: snapshot: %v", err)
+	var shared *slug.Packer
+	if s.SamePacker {
+		var opts []slug.PackerOption
+		for _, al := range s.First.Allow {
+			opts = append(opts, slug.AllowSymlinkTarget(fsx.Subst(al, a.Vars)))
+		}
+		shared, err = slug.NewPacker(opts...)
+		if err != nil {
+			return fmt.Errorf("harness: %v", err)
+		}
 	}
+	dst1, spelled1 := a.Dst, a.Spelled
 	for i := 0; i <= len(s.More); i++ {
 		c := s.AsCase(i)
+		rel := "l1/l2/l3/dst"
+		a.Dst, a.Spelled = dst1, spelled1
+		if i > 0 && s.More[i-1].OtherDst {
+			// the other destination: what the earlier calls unpacked now lies outside
+			rel = ugen.Dst2Rel
+			a.Dst = filepath.Join(a.R, filepath.FromSlash(rel))
+			a.Spelled = a.Dst
+			ev.Label("other-destination")
+		}
 		if i > 0 && s.More[i-1].Wipe {
 			a.Wipe()
 			ev.Label("wiped-between")
 		}
-		uerr, panicked := unpack(c, a)
+		before, err := a.SnapshotOutsideOf(rel)
+		if err != nil {
+			return fmt.Errorf("harness: snapshot: %v", err)
+		}
+		var uerr error
+		var panicked any
+		if shared != nil {
+			r, _, berr := c.Stream(a.Vars)
+			if berr != nil {
+				ev.Label("archive-not-buildable")
+				return nil
+			}
+			func() {
+				defer func() { panicked = recover() }()
+				defer a.Enter()()
+				uerr = shared.Unpack(r, a.Spelled)
+			}()
+		} else {
+			uerr, panicked = unpack(c, a)
+		}
 		if str, ok := panicked.(string); ok && strings.HasPrefix(str, "harness-") {
 			ev.Label("archive-not-buildable")
 			return nil
 		}
-		after, err := a.SnapshotOutside()
+		after, err := a.SnapshotOutsideOf(rel)
 		if err != nil {
 			return fmt.Errorf("harness: snapshot after: %v", err)
 		}
@@ -146,7 +182,7 @@ func checkSequence(s ugen.SeqCase) error {
 			if len(d) > 6 {
 				d = d[:6]
 			}
-			return fmt.Errorf("Unpack number %d into the same destination (returned %v) changed the arena outside dst: %s", i+1, uerr, strings.Join(d, "; "))
+			return fmt.Errorf("Unpack number %d of a sequence (returned %v) changed the arena outside its destination %s: %s", i+1, uerr, rel, strings.Join(d, "; "))
 		}
 		if panicked != nil {
 			return fmt.Errorf("Unpack number %d panicked: %v", i+1, panicked)
